@@ -3,7 +3,7 @@
    printouts, and non-vacuity examples. *)
 From Coq Require Import ZArith List Bool Arith Relations.
 From WH.Model Require Import Heap HeapSpec UnionFind UFSpec.
-From WH.Proofs Require Import HeapProofs UFProofs.
+From WH.Proofs Require Import HeapProofs UFProofs UFOrder.
 Import ListNotations.
 
 (* --- priority queue ------------------------------------------------------------------------- *)
@@ -63,6 +63,28 @@ Theorem C18_same_representative_iff_connected :
   (exists r sx sy, find s x = inl (r, sx) /\ find s y = inl (r, sy)) <-> conn (merges_of ops) x y.
 Proof. exact same_representative_iff_connected. Qed.
 Print Assumptions C18_same_representative_iff_connected.
+
+(* find depends only on the connectivity generated so far: two histories over the same value set
+   whose merges generate the same connectivity -- in any order, with either orientation, repeated,
+   interleaved with any finds (path compressions) -- give the same representative for every x. *)
+Theorem C18_find_depends_on_connectivity_only :
+  forall (values : list nat) (ops ops' : list uop) (x : nat),
+  forallb (well_formed values) ops = true -> forallb (well_formed values) ops' = true -> In x values ->
+  (forall a b, conn (merges_of ops) a b <-> conn (merges_of ops') a b) ->
+  exists r s1 s2, find (urun_state (uf_init values) ops) x = inl (r, s1) /\
+                  find (urun_state (uf_init values) ops') x = inl (r, s2).
+Proof. exact find_depends_on_connectivity_only. Qed.
+Print Assumptions C18_find_depends_on_connectivity_only.
+
+Theorem C18_find_merge_order_irrelevant :
+  forall (values : list nat) (ops ops' : list uop) (x : nat),
+  forallb (well_formed values) ops = true -> forallb (well_formed values) ops' = true -> In x values ->
+  (forall a b, In (a, b) (merges_of ops) -> In (a, b) (merges_of ops') \/ In (b, a) (merges_of ops')) ->
+  (forall a b, In (a, b) (merges_of ops') -> In (a, b) (merges_of ops) \/ In (b, a) (merges_of ops)) ->
+  exists r s1 s2, find (urun_state (uf_init values) ops) x = inl (r, s1) /\
+                  find (urun_state (uf_init values) ops') x = inl (r, s2).
+Proof. exact find_merge_order_irrelevant. Qed.
+Print Assumptions C18_find_merge_order_irrelevant.
 
 (* malformed operations are rejected without changing any later answer *)
 Theorem C18_malformed_rejected : forall (values : list nat) (ops : list uop) (o : uop),
